@@ -53,7 +53,8 @@ class Prop:
             "actions_not_applicable": sum(c.get("skipped", 0) for c in cases),
             "steps_not_settled": sum(c.get("slow", 0) for c in cases),
             "stuck": [c["stuck"] for c in cases if c.get("stuck")][:5],
-            "race_rounds": sum(1 for c in races if c["race"]["kind"] != "drain"),
+            "race_rounds": sum(1 for c in races if c["race"]["kind"] not in ("drain", "inside-batch")),
+            "inside_batch_rounds": sum(1 for c in races if c["race"]["kind"] == "inside-batch"),
             "race_ghost_index_entries": sum(1 for c in races if c["race"]["ghost_entries"] > 0),
             "race_datagram_after_return": sum(1 for c in races if c["race"]["datagrams_after_return"] > 0),
             "drain_rounds": sum(1 for c in races if c["race"]["kind"] == "drain"),
@@ -114,7 +115,7 @@ class Prop:
         return fs
 
     def shrink_candidates(self, case):
-        if case.get("mode", 0) == 1:
+        if case.get("mode", 0) == 1 or (len(case["plan"]) == 1 and case["plan"][0].split()[0] in ("drain", "insidebatch", "race")):
             return
         plan = case["plan"]
         n = len(plan)
@@ -130,6 +131,8 @@ class Prop:
         if case.get("_fail"):
             f = case["_fail"]
         clause = f["pos"] % 10
+        if case.get("mode", 0) == 1 and str(case.get("gen", "")).startswith("inside-batch"):
+            return {2: "removal-inside-tun-batch-ghost-index-entry", 1: "removal-inside-tun-batch-datagram-after-return"}.get(clause, "removal-inside-tun-batch-clause%d" % clause)
         if case.get("mode", 0) == 1 and str(case.get("gen", "")).startswith("drain"):
             return {2: "removal-drain-ghost-index-entry", 1: "removal-drain-datagram-after-return"}.get(clause, "removal-drain-clause%d" % clause)
         if case.get("mode", 0) == 1:
